@@ -1,4 +1,5 @@
 import Kdf.Model.Res
+import Kdf.Model.BlobPin
 /-! Line protocol for stream `res` (C15).  Only lines starting with `M ` are
 for the model; everything else (the API operations the harness executes) is
 ignored.
@@ -221,6 +222,11 @@ partial def loop (h : IO.FS.Stream) (s : St) : IO Unit := do
         IO.println s!"> T {showEvs r.1.dropLast}| free"
         loop h { s with ax := r.2 }
       | _ => IO.println "> T | BAD-CALL"; loop h s
+  | ["M", "derived", raw, off, len] =>
+    -- derived_attr_revalidate on a raw blob of <raw> bytes (`-`: the blob attribute has no value)
+    let r := Kdf.Model.BlobPin.derivedRevalidate raw.toNat? off.toNat! len.toNat!
+    IO.println s!"> D {r.1.name} {Kdf.Model.BlobPin.net r.2}"
+    loop h s
   | ["M", "checkreset"] => loop h { s with led := [] }
   | "M" :: "check" :: evs =>
     match evs.mapM parseEv with
